@@ -195,3 +195,30 @@ func TestC19Reg_BlockHashLengthOverflow(t *testing.T) {
 	}
 	_ = w
 }
+
+// KF-C19-subsidy-chainid-unchecked: MessageSubsidy.Check() does not bound the chain id (every other message that names a
+// chain goes through checkChainId) and HandleMessageSubsidy credits pool id = ChainId verbatim. Pool ids of the other pool
+// kinds are chain id + addend, so a "subsidy for committee 65537" is credited to the swap ESCROW pool of chain 2 (and
+// 16385 -> DEX holding pool of chain 2, 32769 -> DEX liquidity pool of chain 2, 131071 -> DAO pool): different
+// (kind, chain) pairs share one pool key.
+func TestC19Reg_SubsidyChainIdChecked(t *testing.T) {
+	w, err := getWorld()
+	if err != nil {
+		t.Fatalf("harness: %v", err)
+	}
+	defer w.c.Abort()
+	escrowID := uint64(certNested) + fsm.EscrowPoolAddend
+	before, e := w.c.FSM.GetPoolBalance(escrowID)
+	if e != nil {
+		t.Fatal(e)
+	}
+	raw, _, err := w.c.SignTx(keys.Ed(5), &fsm.MessageSubsidy{Address: chainsim.Addr(keys.Ed(5)), ChainId: escrowID, Amount: 1234}, 100_000, w.c.Height(), "")
+	if err != nil {
+		t.Fatal(err)
+	}
+	_, _, ae := w.c.FSM.ApplyTransaction(0, raw, crypto.HashString(raw), nil)
+	after, _ := w.c.FSM.GetPoolBalance(escrowID)
+	if ae == nil && after != before {
+		t.Errorf("a subsidy transaction naming \"committee\" %d passed Check() and was credited to the swap escrow pool of chain %d: %d -> %d while the open sell orders (the only thing that pool backs) did not change", escrowID, certNested, before, after)
+	}
+}
